@@ -109,5 +109,10 @@ func baseHistories() []baseHistory {
 			op("checkin", 0, 0, 0), op("checkin", 1, 0, 0), op("checkin", 2, 0, 0), endblock, endblock,
 			op("cfg", 0, 0, 0), op("cfg", 2, 0, 0), endblock,
 		}},
+		{Name: "H5 n=3 t=2, node started in dev mode: check-ins, config change, DKG votes", Genesis: appx.Genesis{Members: []int{0, 1, 2}, Threshold: 2, DevMode: true}, Ops: []appx.Op{
+			op("checkin", 0, 0, 0), op("seen", 0, 0, 0), endblock,
+			op("checkin", 1, 0, 0), op("seen", 1, 0, 0), op("cfg", 0, 0, 0), op("cfg", 1, 0, 0), endblock,
+			op("commit", 0, 0, 1), op("result", 0, 0, 0), op("result", 1, 0, 0), endblock, endblock,
+		}},
 	}
 }
